@@ -120,6 +120,9 @@ func (f *RawMessageFilter) ConsumeCacheMessages(consensusMessagesHandler Consens
 		f.logger.Debug("LHFILTER consuming %d messages from height=%d", len(messages), height)
 	}
 	for _, message := range messages {
+		if f.state.Height() != height { // a cached message made the node commit and move on: the rest is now past
+			break
+		}
 		f.processConsensusMessage(message)
 	}
 	delete(f.futureCache, height)
